@@ -173,8 +173,9 @@ class Gen:
     def chunk(self, ts, depth):
         kinds = ["push", "push", "stack", "arith", "arith", "compare", "comb", "comb", "option_or", "list", "setmap", "setmap",
                  "strbytes", "strbytes", "env", "usetop", "usetop", "usetop", "pack"]
+        kinds += ["build", "noop"]
         if depth > 0:
-            kinds += ["if", "lambda", "loop", "iter", "dip", "ifnone", "dipstack"]
+            kinds += ["if", "lambda", "loop", "iter", "dip", "ifnone", "dipstack", "lambdarec"]
         if self.profile == "tickets":
             kinds = ["ticket"] * 12 + ["stack", "stack", "push", "option_or", "usetop"] + (["ifnone", "dip"] if depth > 0 else [])
         elif self.profile == "collections":
@@ -396,6 +397,52 @@ class Gen:
             body += ch
             cur = new
         return [P("DIP", body) if n == 1 and self.d(st.booleans()) else P("DIP", I(n), body)]
+
+    def c_lambdarec(self, ts, depth):
+        """LAMBDA_REC (pair nat nat) nat: f (n, acc) = if n = 0 then acc else f (n - 1, acc + n); executed or partially applied."""
+        body = [P("UNPAIR"), P("DUP"), push(T("nat"), 0), P("COMPARE"), P("EQ"),
+                P("IF", [P("DROP"), P("SWAP"), P("DROP")],
+                  [P("DUP"), P("DIG", I(2)), P("ADD"), P("SWAP"), push(T("nat"), 1), P("SWAP"), P("SUB"), P("ABS"), P("PAIR"), P("EXEC")])]
+        pt = T("pair", T("nat"), T("nat"))
+        code = [P("LAMBDA_REC", pt, T("nat"), body)]
+        n, acc = self.d(st.integers(0, 5)), self.d(st.integers(0, 9))
+        k = self.pick(["EXEC", "EXEC", "APPLY", "keep"])
+        if k == "EXEC":
+            code += [push(pt, (n, acc)), P("EXEC")]
+        elif k == "APPLY":
+            code += [push(T("nat"), n), P("APPLY"), push(T("nat"), acc), P("EXEC")]
+        return code
+
+    def c_build(self, ts, depth):
+        """collections built from EMPTY_SET / EMPTY_MAP / NIL by UPDATE / CONS (rather than pushed as literals)"""
+        kind = self.pick(["set", "map", "list"])
+        if kind == "list":
+            t = self.d(small_type(0))
+            code = [P("NIL", t)]
+            for _ in range(self.d(st.integers(0, 3))):
+                code += [push(t, self.d(gt.values(t))), P("CONS")]
+            return code + ([P("SIZE")] if self.d(st.integers(0, 3)) == 0 else [])
+        kt = self.d(small_type(self.d(st.integers(0, 1)), comparable=True))
+        base = self.d(gt.values(kt))
+        ks = gt._consistent(kt, [base] + [self.d(gt.near(kt, base)) for _ in range(self.d(st.integers(0, 3)))])
+        if kind == "set":
+            code = [P("EMPTY_SET", kt)]
+            for k in ks:
+                code += [push(T("bool"), self.d(st.integers(0, 4)) != 0), push(kt, k), P("UPDATE")]
+            return code
+        vt = self.d(small_type(0))
+        code = [P("EMPTY_MAP", kt, vt)]
+        for k in ks:
+            ov = self.d(st.one_of(st.none(), gt.values(vt).map(lambda x: ("Some", x))))
+            code += [push(T("option", vt), ov), push(kt, k), P(self.pick(["UPDATE", "UPDATE", "GET_AND_UPDATE"]))]
+            if code[-1]["prim"] == "GET_AND_UPDATE":
+                code.append(P("DROP"))
+        return code
+
+    def c_noop(self, ts, depth):
+        if not ts:
+            return self.c_push(ts, depth)
+        return [P("CAST", ts[0])] if self.d(st.booleans()) else [P("RENAME")]
 
     def c_option_or(self, ts, depth):
         t = self.d(small_type(0))
